@@ -484,6 +484,7 @@ fn map_main(args: &[String]) {
   let only = if args[1] == "map-case" { Some(get("--index", 0)) } else { None };
   let range = match only { Some(i) => i..i + 1, None => 0..cases };
   let mut found = 0usize; let mut ran = 0usize;
+  std::panic::set_hook(Box::new(|_| {}));   // panics of the code under test are caught and reported as violations
   if only.is_none() || args.iter().any(|a| a == "--twins") {
     ran += 1;
     if let Err(f) = mapmodel::twins() { println!("{{\"violation\":true,\"engine\":\"map\",\"property\":\"{}\",\"obligation\":\"{}\",\"rerun\":\"map-case --twins --index 0 --len 0\",\"what\":{:?},\"case\":\"two block-local key types named K\"}}", f.prop, f.ob, f.what); found += 1; }
@@ -491,7 +492,12 @@ fn map_main(args: &[String]) {
   for i in range {
     let mut rng = mapmodel::Rng((0x9E3779B97F4A7C15u64 ^ (seed as u64).wrapping_mul(0xD1342543DE82EF95) ^ (i as u64).wrapping_mul(0xA24BAED4963EE407)) | 1);
     let ops = mapmodel::gen(&mut rng, len); ran += 1;
-    if let Err((at, f)) = mapmodel::run(&ops) {
+    // a panic of the real crate on an operation sequence of the public API is a failure of that sequence
+    let r = match std::panic::catch_unwind(std::panic::AssertUnwindSafe(|| mapmodel::run(&ops))) {
+      Ok(r) => r,
+      Err(e) => Err((ops.len(), mapmodel::Fail { prop: "C14", ob: "C14.bounded.operation_does_not_panic", what: format!("the sequence panicked: {}", panic_text(&e)) })),
+    };
+    if let Err((at, f)) = r {
       println!("{{\"violation\":true,\"engine\":\"map\",\"property\":\"{}\",\"obligation\":\"{}\",\"rerun\":{:?},\"what\":{:?},\"case\":{:?}}}", f.prop, f.ob, format!("map-case --seed {} --index {} --len {}", seed, i, len), f.what, format!("{:?}", &ops[..=at]));
       found += 1; if found >= 5 { break; }
     }
